@@ -426,18 +426,15 @@ example : smallestSizeType 255 = 1 ∧ smallestSizeType 256 = 2 ∧ smallestSize
 
 /-! ## triviality of the destructor -/
 
-/-- `FixedCapacityVector<T,N>` with N ≥ 1 is trivially destructible exactly when T is -/
-theorem C17_trivial_dtor (N : Nat) (td : Bool) (hN : 0 < N) : fcvTriviallyDestructible N td = td := by
-  have : (N != 0) = true := by simp; omega
-  simp [fcvTriviallyDestructible, defineDestructor, fcvWithInlineElements, this]
+/-- `FixedCapacityVector<T,N>` is trivially destructible exactly when T is, for every N including 0 -/
+theorem C17_trivial_dtor (N : Nat) (td : Bool) : fcvTriviallyDestructible N td = td := by
+  simp [fcvTriviallyDestructible, defineVectorDestructor, defineDestructor]
 
-/-- DEVIATION from the property statement, as the code stands: `FixedCapacityVector<T,0>` always defines a destructor
-(`VectorWithInplaceStorage` passes `WithInlineElements = (N != 0)` and `DefineDestructor<T,false>` is `true`, which was
-meant for `amc::vector` of incomplete types), so it is never trivially destructible. Reported as a finding by the
-check; this theorem only records that the model follows the code here. -/
-theorem C17_trivial_dtor_N0 (td : Bool) : fcvTriviallyDestructible 0 td = false := by
-  simp [fcvTriviallyDestructible, defineDestructor, fcvWithInlineElements]
+/-- amc::vector keeps its unconditional destructor (support of incomplete element types) -/
+theorem C17_vector_dtor (td : Bool) : defineVectorDestructor td false true = true := by
+  simp [defineVectorDestructor, defineDestructor]
 
+example : fcvTriviallyDestructible 0 true = true ∧ fcvTriviallyDestructible 0 false = false := by decide
 example : fcvTriviallyDestructible 3 true = true ∧ fcvTriviallyDestructible 3 false = false := by decide
 
 /-! ## noexcept -/
